@@ -1578,8 +1578,11 @@ class HorosphereArc(Horosphere, PointPair):
 
         thetas = utils.circle_angles(center, model_coords)
 
+        # one reference angle per arc: the ideal center of each arc is
+        # a single point on that arc's circle
         center_theta = utils.circle_angles(
-            center, self.center_coords(model=model)
+            center,
+            np.expand_dims(self.center_coords(model=model), axis=-2)
         )[..., 0]
 
         thetas = np.flip(utils.arc_include(thetas, center_theta), axis=-1)
